@@ -7,6 +7,7 @@ import (
 	"bytes"
 	"encoding/json"
 	"fmt"
+	"sort"
 	"strconv"
 	"strings"
 	"sync"
@@ -17,29 +18,29 @@ import (
 
 // Chunk is one abstract chunk/segment record (union of all fields).
 type Chunk struct {
-	T      string `json:"t"`
-	W      int64  `json:"w,omitempty"`
-	H      int64  `json:"h,omitempty"`
-	D      int    `json:"d,omitempty"`
-	CT     int    `json:"ct,omitempty"`
-	IL     int    `json:"il,omitempty"`
-	Size   string `json:"size,omitempty"`
-	Name   int    `json:"name,omitempty"`
-	Method int    `json:"method,omitempty"`
-	Z      string `json:"z,omitempty"`
-	Pid    int    `json:"pid,omitempty"`
-	Cross  bool   `json:"cross,omitempty"`
+	T      string          `json:"t"`
+	W      int64           `json:"w,omitempty"`
+	H      int64           `json:"h,omitempty"`
+	D      int             `json:"d,omitempty"`
+	CT     int             `json:"ct,omitempty"`
+	IL     int             `json:"il,omitempty"`
+	Size   string          `json:"size,omitempty"`
+	Name   int             `json:"name,omitempty"`
+	Method int             `json:"method,omitempty"`
+	Z      string          `json:"z,omitempty"`
+	Pid    int             `json:"pid,omitempty"`
+	Cross  bool            `json:"cross,omitempty"`
 	Kind   json.RawMessage `json:"kind,omitempty"`
-	P      int    `json:"p,omitempty"`
-	NC     int    `json:"nc,omitempty"`
-	Seq    int    `json:"seq,omitempty"`
-	Total  int    `json:"total,omitempty"`
-	WS     int    `json:"ws,omitempty"`
-	HS     int    `json:"hs,omitempty"`
-	Alpha  bool   `json:"alpha,omitempty"`
-	ICCF   bool   `json:"iccf,omitempty"`
-	Exif   bool   `json:"exif,omitempty"`
-	XMP    bool   `json:"xmp,omitempty"`
+	P      int             `json:"p,omitempty"`
+	NC     int             `json:"nc,omitempty"`
+	Seq    int             `json:"seq,omitempty"`
+	Total  int             `json:"total,omitempty"`
+	WS     int             `json:"ws,omitempty"`
+	HS     int             `json:"hs,omitempty"`
+	Alpha  bool            `json:"alpha,omitempty"`
+	ICCF   bool            `json:"iccf,omitempty"`
+	Exif   bool            `json:"exif,omitempty"`
+	XMP    bool            `json:"xmp,omitempty"`
 }
 
 func (c Chunk) KindStr() string {
@@ -110,6 +111,8 @@ func PNGPayload(pid int, variant int) []byte {
 		return gen.Payload(70000+variant, 6, false)
 	case 7:
 		return gen.Payload(3<<20, 7, true)
+	case 8:
+		return gen.Payload(5<<20+1, 8, false) // several MiB, incompressible
 	}
 	panic("bad pid")
 }
@@ -128,6 +131,12 @@ func JPEGPayload(pid int, variant int) []byte {
 	case 3:
 		return gen.Payload(4097, 13, true)
 	}
+	if pid >= 1000 { // per-chunk payloads of the many-chunk profiles: size and content coded by pid
+		return gen.Payload(1+(pid*37)%300, uint32(pid), pid%2 == 0)
+	}
+	if pid >= 100 { // full-size chunks (65519 bytes) with distinct contents
+		return gen.Payload(gen.MaxICCChunk, uint32(pid), false)
+	}
 	panic("bad pid")
 }
 
@@ -145,6 +154,8 @@ func WebPPayload(pid int, variant int) []byte {
 		return gen.Payload(4097, 25, false)
 	case 6:
 		return gen.Payload(1<<20+1, 26, false)
+	case 8:
+		return gen.Payload(6<<20, 28, false)
 	}
 	panic("bad pid")
 }
@@ -439,6 +450,34 @@ func Project(c Case, variant int, o *obs.Obs) Outcome {
 				if try(a.ICC) {
 					return out
 				}
+			}
+		}
+		// candidates read off the abstract file itself (used when no Allowed set came
+		// with the case): the ICC payload ids in sequence-number order / the single pid.
+		// This only NAMES the observed bytes; TLC decides whether that identity is allowed.
+		var ids []int
+		type sp struct{ seq, pid int }
+		var segs []sp
+		for _, ch := range c.File {
+			switch ch.T {
+			case "ICC":
+				segs = append(segs, sp{ch.Seq, ch.Pid})
+			case "iCCP", "ICCP":
+				if ids == nil {
+					ids = []int{ch.Pid}
+				}
+			}
+		}
+		if len(segs) > 0 {
+			sort.SliceStable(segs, func(i, j int) bool { return segs[i].seq < segs[j].seq })
+			for _, s := range segs {
+				ids = append(ids, s.pid)
+			}
+		}
+		if ids != nil {
+			js, _ := json.Marshal([]interface{}{"data", ids})
+			if try(js) {
+				return out
 			}
 		}
 		// not an allowed identity: still name it if it is a single known payload
